@@ -2059,3 +2059,72 @@ def rule_instantiate_type_by_evaluation(ctx, rep: Report, rid="S14", part="subst
     else:
         rep.add(rid, "instantiate_type:the type expression handed in is left as it was", not impure,
                 f"{impure[:2]}: the next instantiation of the same template starts from a declaration the first one has rewritten", loc)
+
+
+def rule_substitution_input_is_the_declaration(ctx, rep: Report, rid="S15"):
+    """Substitution happens once, with the complete list of parameters: what a substitution primitive (`instantiate_type`,
+    `instantiate_args_list`, `instantiate_return_type`) is given to work on comes from the *declaration*, never from the result
+    of an earlier substitution.  A second pass over already-substituted types scans concrete text for parameters again - a
+    concrete type spelled like another parameter of the declaration (`template<T={Point}> ... template<Point={double}>`) is
+    captured, and the arguments of a member no longer agree with its return type."""
+    I = Inst(ctx)
+    prog, eff = I.prog, I.eff
+    n = 0
+
+    def may_be_substituted(e, fn, mi, ci, depth=10, seen=()):
+        """Some value `e` can take is the result of a substitution primitive: (True, how) / (False, '')."""
+        if depth <= 0:
+            return False, ""
+        if isinstance(e, ast.Call):
+            if I.is_primitive(e, mi, ci, fn):
+                return True, f"result of {unparse(e.func)}(...)"
+            if isinstance(e.func, ast.Attribute) and e.func.attr in ("list", "copy") and not e.args:
+                return may_be_substituted(e.func.value, fn, mi, ci, depth - 1, seen)
+            if isinstance(e.func, ast.Name) and e.func.id in ("list", "tuple", "deepcopy", "copy") and e.args:
+                return may_be_substituted(e.args[0], fn, mi, ci, depth - 1, seen)
+            return False, ""
+        if isinstance(e, (ast.ListComp, ast.GeneratorExp)):
+            return may_be_substituted(e.elt, fn, mi, ci, depth - 1, seen)
+        if isinstance(e, ast.IfExp):
+            a = may_be_substituted(e.body, fn, mi, ci, depth - 1, seen)
+            return a if a[0] else may_be_substituted(e.orelse, fn, mi, ci, depth - 1, seen)
+        if isinstance(e, ast.Name) and fn is not None:
+            defs, killed = reaching_defs(fn, e.id, e)
+            for d in defs:
+                if isinstance(d, (ast.Assign, ast.AnnAssign)) and d.value is not None:
+                    r = may_be_substituted(d.value, fn, mi, ci, depth - 1, seen)
+                    if r[0]:
+                        return True, f"{e.id} = {unparse(d.value)[:40]} ({r[1]})"
+            if not killed and e.id in func_params(fn):
+                fid = eff.fid_of(ci, mi, fn)
+                key = (fid, e.id)
+                if key in seen:
+                    return False, ""
+                drop = ci is not None and not any(unparse(d) == "staticmethod" for d in fn.decorator_list)
+                for cf, c in I.callers(fid):
+                    cmi, cfn, cci = eff.funcs[cf]
+                    try:
+                        b = bind_call(fn, c, drop_self=drop)
+                    except AnalysisError:
+                        continue
+                    if e.id in b:
+                        r = may_be_substituted(b[e.id], cfn, cmi, cci, depth - 1, seen + (key,))
+                        if r[0]:
+                            return True, f"{cf.qual} passes {unparse(b[e.id])[:40]} for {e.id} ({r[1]})"
+        return False, ""
+    for fid in sorted(eff.funcs, key=repr):
+        if not fid.rel.startswith(TI):
+            continue
+        mi, fn, ci = eff.funcs[fid]
+        for c in walk_no_nested(fn):
+            if not (isinstance(c, ast.Call) and I.is_primitive(c, mi, ci, fn) and c.args):
+                continue
+            if fid.qual in PRIMITIVES and isinstance(c.func, ast.Name) and c.func.id == "instantiate_type":
+                pass          # the primitives call one another on parts of the declaration: judged like every other call
+            n += 1
+            again, how = may_be_substituted(c.args[0], fn, mi, ci)
+            rep.add(rid, f"once:{fid.qual}:{unparse(c.func)}({unparse(c.args[0])[:30]}..) works on the declaration", not again,
+                    f"the types handed to {unparse(c.func)} can already be substituted ({how}): the concrete types put in by the first pass are scanned for "
+                    f"template parameters again", f"{mi.rel}:{c.lineno}")
+    if n < 8:
+        raise AnalysisError(f"{rep.prop}/{rid}: only {n} calls of the substitution primitives found")
